@@ -177,7 +177,11 @@ def _run_case(case, rec, mon=None):
                     continue
                 used.append((i, W))
                 try:
-                    if (i + W) % 3 == 0:
+                    if (i + W) % 5 == 1:
+                        with monitor.strict_settings():  # settings a user may choose: FP division by zero raises, UserWarnings are errors
+                            bank.get_impulse_response(i, W)
+                        rec.count("calls_under_strict_process_settings")
+                    elif (i + W) % 3 == 0:
                         bank.get_impulse_response(filt_idx=i, width=W)
                     else:
                         bank.get_impulse_response(i, W)
